@@ -8,14 +8,16 @@
       those tokens.
    2. The clauses of C08 that the faithful model falsifies, each with its witness script (replayed
       on the implementation, z3 and cvc5 by harness/c08.py / the builder's report):
-        let_parallel_refuted, definefun_shadows_binder_refuted, undeclared_identifier_refuted,
-        quoted_numeral_refuted, definefun_capture_refuted.
+        undeclared_identifier_refuted, quoted_numeral_refuted, definefun_capture_refuted;
+      and, for the clauses repaired in parser.py (parallel let, binders shadow definitions), the
+      former witnesses as positive statements: let_parallel_witness, let_parallel_family,
+      binder_shadows_definition_witness.
    3. parse_agrees_printed_partial: wherever the reader returns the term whose print-out it was
       given (the round trip of C09), the returned term denotes what the standard says the text
       denotes (through C07's print_tree_sound_partial). *)
 From Coq Require Import List ZArith Bool String Ascii Lia ClassicalDescription.
 From PySMT.core Require Import Syntax Sem SmtStd.
-From PySMT.models Require Import TypeChecker SmtLex SmtParser SmtPrinter.
+From PySMT.models Require Import TypeChecker SmtLex SmtParser SmtPrinter RoundTrip.
 From PySMT.proofs Require Import SmtPrinter_proofs.
 Import ListNotations.
 Open Scope string_scope.
@@ -25,12 +27,6 @@ Definition plain_char (c : ascii) : bool := negb (is_special c).
 Definition plain_tok (t : string) : Prop :=
   t = "(" \/ t = ")" \/
   (t <> "" /\ forallb plain_char (list_ascii_of_string t) = true).
-
-Fixpoint render_sp (toks : list string) : list ascii :=
-  match toks with
-  | [] => []
-  | t :: r => (list_ascii_of_string t ++ " "%char :: render_sp r)%list
-  end.
 
 Lemma string_of_rev_spec : forall l acc,
   string_of_rev l acc = (string_of_list_ascii (rev l) ++ acc)%string.
@@ -105,6 +101,24 @@ Proof.
   constructor.
 Qed.
 
+(* the tokenizer with sources (what parse_chars runs) yields the same tokens *)
+Definition proj_src (x : list (string * list ascii) * lex_end) : list string * lex_end :=
+  (map fst (fst x), snd x).
+Lemma proj_emit o r x : proj_src (emit_src o r x) = emit o (proj_src x).
+Proof. destruct o; reflexivity. Qed.
+Lemma lex_src_go_tokens : forall cs m, proj_src (lex_src_go m cs) = lex_go m cs.
+Proof.
+  induction cs as [|c r IH]; intros m; [reflexivity|].
+  destruct m; cbn [lex_go lex_src_go];
+    repeat match goal with
+           | |- context [let (_, _) := top_step ?x in _] => destruct (top_step x)
+           | |- context [if ?b then _ else _] => destruct b
+           end;
+    rewrite ?proj_emit, ?IH; try reflexivity; rewrite ?proj_emit, ?IH; reflexivity.
+Qed.
+Theorem lex_src_tokens cs : proj_src (lex_src cs) = lex cs.
+Proof. apply lex_src_go_tokens. Qed.
+
 (* quoted symbols: the bars are dropped (so |abc| and abc are the same token - as in the standard -
    but also |5| and 5, |(| and the parenthesis: see quoted_numeral_refuted) *)
 Lemma lex_quoted_drops_bars :
@@ -122,41 +136,73 @@ Definition interp_xy (vx vy : value) : interp :=
   {| isym := fun n _ => if String.eqb n "x" then vx else vy;
      ifun := fun _ _ _ => VBool false; rdiv0 := fun r => r; idiv0 := fun z => z |}.
 
-(* simultaneous let-bindings: the text (let ((x y) (y x)) y) denotes the value of x; the reader
-   returns the term y *)
+(* simultaneous let-bindings (repaired: parser.py binds the names of a let after its last binding).
+   The former witness: the text (let ((x y) (y x)) y) denotes the value of x, and the reader now
+   returns the term x. *)
 Definition let_text := "(declare-fun x () Bool)(declare-fun y () Bool)(assert (let ((x y) (y x)) y))".
 Definition let_sexp : sexp :=
   SList [Atom "let"; SList [SList [Atom "x"; Atom "y"]; SList [Atom "y"; Atom "x"]]; Atom "y"].
+Definition sig_xy : sig := sig_of [("x", TBool); ("y", TBool)].
 
-Lemma let_parallel_refuted :
+Lemma let_parallel_witness :
   exists t,
     parse_model let_text = Ok [decl "x" TBool; decl "y" TBool; mkC "assert" [ATerm t]] /\
     fst (lex_string "(assert (let ((x y) (y x)) y))") = ("(" :: "assert" :: flatten let_sexp ++ [")"])%list /\
-    exists I, std_eval (sig_of [("x", TBool); ("y", TBool)]) I let_sexp <> Some (eval I t).
+    forall I, std_eval sig_xy I let_sexp = Some (eval I t).
 Proof.
-  exists (TSym "y" TBool). split; [vm_compute; reflexivity|]. split; [vm_compute; reflexivity|].
-  exists (interp_xy (VBool true) (VBool false)). vm_compute. discriminate.
+  exists (TSym "x" TBool). split; [vm_compute; reflexivity|]. split; [vm_compute; reflexivity|].
+  intros I. vm_compute. reflexivity.
 Qed.
 
-(* scoping of quantified names against defined names: in (exists ((x Bool)) x) after
-   (define-fun x () Bool false) the inner x is the bound variable; the reader returns
-   exists x. false *)
+(* the whole family of two-binding lets over x, y, true, false: every (let ((x a) (y b)) c) with
+   a, b in {x, y, true, false} and c in {x, y} is read as the standard says *)
+Definition let_atoms : list string := ["x"; "y"; "true"; "false"].
+Definition let_family : list sexp := Eval vm_compute in
+  flat_map (fun a => flat_map (fun b => map (fun c =>
+    SList [Atom "let"; SList [SList [Atom "x"; Atom a]; SList [Atom "y"; Atom b]]; Atom c]) ["x"; "y"])
+    let_atoms) let_atoms.
+Definition let_script (x : sexp) : list ascii :=
+  (list_ascii_of_string "(declare-fun x () Bool)(declare-fun y () Bool)(assert " ++ text_of x ++ [")"%char])%list.
+Definition let_reads (x : sexp) : Prop :=
+  exists t, parse_chars (let_script x) = Ok [decl "x" TBool; decl "y" TBool; mkC "assert" [ATerm t]] /\
+            forall I, std_eval sig_xy I x = Some (eval I t).
+
+Lemma let_parallel_family : Forall let_reads let_family.
+Proof.
+  unfold let_family.
+  repeat (constructor; [eexists; split; [vm_compute; reflexivity | intros I; vm_compute; reflexivity] |]).
+  constructor.
+Qed.
+
+(* scoping of quantified names against defined names (repaired: a binding in [keys] shadows a
+   definition): in (exists ((x Bool)) x) after (define-fun x () Bool false) the inner x is the bound
+   variable, and that is what the reader returns *)
 Definition shadow_text := "(define-fun x () Bool false)(assert (exists ((x Bool)) x))".
 Definition shadow_sexp : sexp :=
   SList [Atom "exists"; SList [SList [Atom "x"; Atom "Bool"]]; Atom "x"].
 
-Lemma definefun_shadows_binder_refuted :
+Lemma binder_shadows_definition_witness :
   exists t,
     parse_model shadow_text =
       Ok [mkC "define-fun" [AStr "x"; AList []; AType TBool; ATerm TFalse]; mkC "assert" [ATerm t]] /\
-    forall I, std_eval (sig_of []) I shadow_sexp = Some (VBool true) /\ eval I t = VBool false.
+    forall I, std_eval (sig_of []) I shadow_sexp = Some (VBool true) /\ eval I t = VBool true.
 Proof.
-  exists (T (OExists [("x", TBool)]) [TFalse]). split; [vm_compute; reflexivity|].
+  exists (T (OExists [("x", TBool)]) [TSym "x" TBool]). split; [vm_compute; reflexivity|].
   intros I. split.
   - vm_compute. emi as [_|H]; [reflexivity|].
     exfalso. apply H. exists [VBool true]. split; [cbn; auto | reflexivity].
-  - cbn. emi as [[xs [_ H]]|_]; [discriminate | reflexivity].
+  - cbn. emi as [_|H]; [reflexivity|].
+    exfalso. apply H. exists [VBool true]. split; [cbn; auto|]. cbn. reflexivity.
 Qed.
+
+(* the same for a let variable and for a define-fun parameter *)
+Lemma binder_shadows_definition_let_param :
+  parse_model "(define-fun x () Int 5)(assert (let ((x 7)) (= x 7)))(define-fun g ((x Int)) Int (+ x 1))" =
+    Ok [mkC "define-fun" [AStr "x"; AList []; AType TInt; ATerm (TIntC 5)];
+        mkC "assert" [ATerm (T OEquals [TIntC 7; TIntC 7])];
+        mkC "define-fun" [AStr "g"; AList [ATerm (TSym "__x0" TInt)]; AType TInt;
+                          ATerm (T OPlus [TSym "__x0" TInt; TIntC 1])]].
+Proof. vm_compute. reflexivity. Qed.
 
 (* an undeclared identifier is accepted and read as a String constant *)
 Definition undeclared_text := "(declare-fun s () String)(assert (= s t))".
